@@ -504,7 +504,23 @@ func (c *Client) TxSearch(
 	page, perPage *int,
 	orderBy string,
 ) (*ctypes.ResultTxSearch, error) {
-	return c.next.TxSearch(ctx, query, prove, page, perPage, orderBy)
+	res, err := c.next.TxSearch(ctx, query, prove, page, perPage, orderBy)
+	if err != nil || !prove {
+		return res, err
+	}
+
+	// Verify every transaction that comes with an inclusion proof, exactly as
+	// Tx does. (That the list is complete cannot be verified.)
+	for i, tx := range res.Txs {
+		if tx == nil {
+			return nil, fmt.Errorf("nil tx %d", i)
+		}
+		if err := c.verifyTx(ctx, tx); err != nil {
+			return nil, fmt.Errorf("tx %d: %w", i, err)
+		}
+	}
+
+	return res, nil
 }
 
 func (c *Client) BlockSearch(
